@@ -93,3 +93,11 @@ theorem optMapM_mem {β γ : Type} (f : β → Option γ) :
         · exact ⟨x0, by simp, hy0⟩
         · obtain ⟨x, hx, hfx⟩ := optMapM_mem f xs ys hys y hy
           exact ⟨x, by simp [hx], hfx⟩
+
+theorem optMapM_isSome {β γ : Type} (f : β → Option γ) :
+    ∀ (l : List β), (∀ x ∈ l, ∃ y, f x = some y) → ∃ r, optMapM f l = some r
+  | [], _ => ⟨[], rfl⟩
+  | x :: xs, h => by
+    obtain ⟨y, hy⟩ := h x (by simp)
+    obtain ⟨ys, hys⟩ := optMapM_isSome f xs (fun z hz => h z (by simp [hz]))
+    exact ⟨y :: ys, by simp [optMapM, hy, hys]⟩
